@@ -91,6 +91,17 @@ func runCLI(c *run.Ctx, cs *Case) bool {
 	defer os.RemoveAll(dir)
 	for i := range cs.Ctxs {
 		ctx := &cs.Ctxs[i]
+		passable := true
+		for _, v := range ctx.E {
+			passable = passable && cliSafe(v)
+		}
+		for _, v := range ctx.K {
+			passable = passable && cliSafe(v)
+		}
+		if !passable {
+			c.Count("cli_context_not_passable", 1) // argv / flag parsing would alter it
+			continue
+		}
 		// the CLI adds its own special keys; none of them is used by the generated templates
 		want, p := eval(ref, ctx)
 		if p {
@@ -135,7 +146,7 @@ func runCLI(c *run.Ctx, cs *Case) bool {
 }
 
 func cliCases(c *run.Ctx) {
-	N := c.N(48, 400)
+	N := c.N(48, 640)
 	for i := 0; i < N; i++ {
 		if !c.Mine(i) {
 			continue
